@@ -12,7 +12,8 @@ import (
 // The exhaustively enumerated sub-domain (thorough tier): one signer (account k0), chains of depth <= 2 with all
 // flags, condition trees of at most 2 levels over a reduced leaf alphabet.
 //
-//	chains   : [] ; one hop from {call A, call C, call D, dynamic script 0, native->A, native->C, native->D};
+//	chains   : [] ; one hop from {call A, call C, call D, dynamic script 0, the entry script's own bytes as a dynamic
+//	           script, native->A, native->C, native->D};
 //	           two such hops (no native hop below a dynamic script); CheckWitness leaf everywhere, native GAS leaf for depth <= 1
 //	signers  : 11 rule-less scope configurations + {CalledByEntry bit off/on} x {[Allow T], [Deny T, Allow true]} x T
 //	           T: leaf | Not(leaf) | And(leaf, leaf) | Or(leaf, leaf) over 11 leaves
@@ -67,6 +68,7 @@ func exHops() []Hop {
 	return []Hop{
 		{Kind: HopCall, Target: RefA, Flags: all}, {Kind: HopCall, Target: RefC, Flags: all}, {Kind: HopCall, Target: RefD, Flags: all},
 		{Kind: HopDyn, Target: 0, Flags: all},
+		{Kind: HopSelf, Flags: all},
 		{Kind: HopNative, Target: RefA, Flags: all}, {Kind: HopNative, Target: RefC, Flags: all}, {Kind: HopNative, Target: RefD, Flags: all},
 	}
 }
@@ -78,13 +80,13 @@ func exhaustiveSpace() *exSpace {
 		s.chains = append(s.chains, exChain{}, exChain{leaf: LeafGas})
 		for _, a := range hs {
 			s.chains = append(s.chains, exChain{hops: []Hop{a}})
-			if a.Kind != HopDyn {
+			if a.Kind != HopDyn && a.Kind != HopSelf {
 				s.chains = append(s.chains, exChain{hops: []Hop{a}, leaf: LeafGas})
 			}
 		}
 		for _, a := range hs {
 			for _, b := range hs {
-				if a.Kind == HopDyn && b.Kind == HopNative {
+				if (a.Kind == HopDyn || a.Kind == HopSelf) && b.Kind == HopNative {
 					continue
 				}
 				s.chains = append(s.chains, exChain{hops: []Hop{a, b}})
